@@ -343,7 +343,10 @@ func (r *Runner) builtin(ctx context.Context, pos syntax.Pos, name string, args 
 		if len(args) == 0 {
 			// Note that "wait" without arguments always returns exit status zero.
 			for _, bg := range r.bgProcs {
-				<-bg.done
+				if !waitBg(ctx, bg) {
+					exit.fatal(ctx.Err())
+					return exit
+				}
 			}
 			break
 		}
@@ -354,7 +357,10 @@ func (r *Runner) builtin(ctx context.Context, pos syntax.Pos, name string, args 
 				return failf(1, "wait: pid %s is not a child of this shell\n", arg)
 			}
 			bg := r.bgProcs[pid-1]
-			<-bg.done
+			if !waitBg(ctx, bg) {
+				exit.fatal(ctx.Err())
+				return exit
+			}
 			exit = *bg.exit
 		}
 	case "builtin":
@@ -1021,6 +1027,18 @@ func (r *Runner) builtin(ctx context.Context, pos syntax.Pos, name string, args 
 		return failf(2, "%s: unsupported builtin\n", name)
 	}
 	return exit
+}
+
+// waitBg waits for a background shell to finish. It reports false if the
+// context was done first; a background shell may be blocked for good, such as
+// a process substitution whose FIFO is never opened by anyone.
+func waitBg(ctx context.Context, bg bgProc) bool {
+	select {
+	case <-bg.done:
+		return true
+	case <-ctx.Done():
+		return false
+	}
 }
 
 // mapfileSplit returns a suitable Split function for a [bufio.Scanner];
